@@ -214,12 +214,18 @@ func (s *Map[K, V]) Store(key K, value V) {
 	for {
 		nodeFound := s.findNode(key, &preds, &succs)
 		if nodeFound != nil { // indicating the key is already in the skip-list
+			// Removals set `marked` while holding the node lock: replace the value under the same
+			// lock, otherwise the value could be stored into a node that has just been deleted
+			// (the Store would be lost while LoadAndDelete returns the old value).
+			nodeFound.mu.Lock()
 			if !nodeFound.flags.Get(marked) {
 				// We don't need to care about whether or not the node is fully linked,
 				// just replace the value.
 				nodeFound.storeVal(value)
+				nodeFound.mu.Unlock()
 				return
 			}
+			nodeFound.mu.Unlock()
 			// If the node is marked, represents some other goroutines is in the process of deleting this node,
 			// we need to add this node in next loop.
 			continue
